@@ -21,6 +21,7 @@ func init() {
 			"F3": "exactly one invoke of the same-named TableEngine method on the looked-up engine with the remaining parameters in order",
 			"F4": "results of the engine call are returned unchanged (void engine methods: nil)",
 			"F5": "no other call; registry Delete(own id) only in close/release, only after the engine call succeeded, and present there",
+			"F7": "CreateTable builds the engine with the caller's options and registers every callback of the caller's callbacks struct through the engine's same-named setter (defaults only when nil is given)",
 			"F6": "the registry field is touched only by Load(own id) / Store(created table's id, that engine) / Delete(own id) / whole-map reset; GetTableEngine maps a failed Load to the sentinel",
 			"G1": "no package-level variable of a production package is written outside package initialisation",
 			"G2": "the engine never stores through its (possibly shared) options pointer; CreateTable builds a fresh engine and backend per table",
@@ -42,6 +43,7 @@ func ifaceMethodNames(i *types.Interface) []string {
 
 func checkC17(c *Ctx) {
 	p := c.P
+	checkManagerCallbackWiring(c, "F7")
 	mi := p.Iface("", "Manager")
 	ei := p.Iface("", "TableEngine")
 	if mi == nil || ei == nil {
